@@ -119,6 +119,40 @@ PROPS["C05"] = {
     ],
 }
 
+def seq_classify(rq, impl):
+    parts = impl.split(" ## ")
+    ok = sum(1 for p in parts if p.startswith("ok"))
+    return "len%d:%dok%s" % (len(parts), ok, ":FRESH-DIFF" if " !fresh " in impl else "")
+
+
+PROPS["C19"] = {
+    "theorems": [
+        "Lace.C19.reset_eq_empty",
+        "Lace.C19.assemble_after_reset",
+        "Lace.C19.assemble_deterministic",
+        "Lace.C19.runSeq_reset_eq_map",
+        "Lace.C19.watch_recheck_eq_check",
+        "Lace.C19.stale_table_matters",
+    ],
+    "compare": cmp_default,
+    "classify": seq_classify,
+    "nontrivial": lambda rq, impl: True,
+    "group": lambda d: seq_classify(d["request"], d["impl"]),
+    "rule": ("histories of 2-6 sources (valid; failing in the lexer, in the parser after labels were recorded, in "
+             "backpatch, in emit; sharing label names; differing origins; the same source repeated) assembled one "
+             "after the other on ONE thread, with lace::reset_state() before each (4 of 5 histories) or without "
+             "(1 of 5: exercises the model's symbol-table threading). Compared per element: the full assembler "
+             "observation of C05 against the model's runSeq; with reset additionally, on the implementation, "
+             "against the same source assembled on a fresh thread (a difference is reported as `!fresh`)."),
+    "trusted": [
+        "the theorem is modest (purity is by construction in a functional model); that lace has no state besides "
+        "the symbol table is established by the correspondence check, not by proof",
+    ],
+    "assumptions": [
+        "`lace watch` itself (inotify, screen clearing) is not exercised; its closure is assemble / reset_state / reclaim",
+    ],
+}
+
 PROPS["C02"]["theorems"] = [
     "Lace.C02.execute_eq_isa",
     "Lace.C02.exec_frame",
